@@ -7,8 +7,13 @@ set -u
 patch=$(readlink -f "$1"); prop=$2; tier=${3:-quick}; seed=${4:-1}
 work=$(mktemp -d /tmp/mutant-XXXXXX)
 trap 'rm -rf "$work"' EXIT
+# seeded changes were written against /repo at 13833c8 (all fixes up to D5); later fix commits may
+# touch the same lines, then the change is applied to the tree it was written for
 git -C /repo archive HEAD | tar -x -C "$work" --one-top-level=repo
-if ! git -C "$work/repo" init -q 2>/dev/null; then :; fi
+if ! (cd "$work/repo" && patch -p1 -s --dry-run < "$patch" >/dev/null 2>&1); then
+  rm -rf "$work/repo"; git -C /repo archive ${MUTANT_BASE:-13833c8} | tar -x -C "$work" --one-top-level=repo
+  echo "NOTE: patch does not apply to HEAD, applied to ${MUTANT_BASE:-13833c8}"
+fi
 if ! (cd "$work/repo" && patch -p1 -s < "$patch"); then echo "PATCH-FAILED"; exit 3; fi
 mkdir -p "$work/verif/.build" "$work/build"
 cp /verif/known-findings.json "$work/verif/"
